@@ -6,6 +6,7 @@ already handed the lock but not polled again (`queued` and holder). A `try_lock_
 await point between its lookup and its clean-up, so it has nothing to cancel (DESIGN.md §9 C06).
 -/
 import Lockable.Proofs.NoPanic
+import Lockable.Proofs.Erasure
 namespace Lockable
 
 /-- a handle whose owner is a pending future that can be dropped -/
@@ -105,5 +106,34 @@ example :
     let s := run (State.init .hashMap) [.lookup 1 7, .lookup 2 7, .enqueue 2, .stamp 1, .release 1]
     Cancellable s 2 ∧ s.order = [7] ∧ (run s [.cancel 2]).order = [] := by
   refine ⟨⟨⟨7, 0, .queued⟩, by decide, Or.inr rfl⟩, by decide, by decide⟩
+
+/-- **Same lasting effect as never having made the call** — a waiting acquisition of a key that somebody holds, cancelled
+while it is queued: the state after lookup, enqueue and cancellation *is* the state before the call, except for the
+recency refresh of the lookup in an lru cache (the one residual effect, DESIGN §9 C06). Every later operation therefore
+behaves as if the call had not been made. -/
+theorem C06_cancelled_wait_erased (kind : Kind) (as : List Act) (h k : Nat) (m : Entry) (w : Nat)
+    (hf : (run (State.init kind) as).hs h = none) (hm : (run (State.init kind) as).ent k = some m) (hho : m.holder = some w) :
+    let s := run (State.init kind) as
+    (cancel (enqueue (lookup s h k).1 h).1 h).1 = s.touch k ∧ (cancel (enqueue (lookup s h k).1 h).1 h).2 = .unit :=
+  cancel_erases_wait _ (inv_reachable kind as) h k m w hf hm hho
+
+/-- … and a try variant that fails (the future of `try_lock_async` has no await point between the lookup and the clean-up,
+so this is also what dropping it amounts to): lookup, failed try and clean-up section lead back to the state before. -/
+theorem C06_failed_try_erased (kind : Kind) (as : List Act) (h k : Nat) (m : Entry) (w : Nat)
+    (hf : (run (State.init kind) as).hs h = none) (hm : (run (State.init kind) as).ent k = some m) (hho : m.holder = some w) :
+    let s := run (State.init kind) as
+    (tryKey (lookup s h k).1 h).2 = .bool false ∧
+    (cleanupFailed (tryKey (lookup s h k).1 h).1 h).1 = s.touch k ∧ (cleanupFailed (tryKey (lookup s h k).1 h).1 h).2 = .unit :=
+  failed_try_erased _ (inv_reachable kind as) h k m w hf hm hho
+
+/-- in the atomic specification, waiting and giving up is the identity -/
+theorem C06_spec_wait_leave (sp sp₁ : Spec) (h k : Nat) (he : applyEv sp (.wait h k) = some sp₁) :
+    applyEv sp₁ (.leave h k) = some sp := spec_wait_leave_id sp sp₁ h k he
+
+/-- non-vacuity: key 7 is held by 1 (no value yet); 2 queues and is cancelled: the state is the one before, in a hash map exactly -/
+example :
+    let s := run (State.init .hashMap) [.lookup 1 7]
+    (∃ m, s.ent 7 = some m ∧ m.holder = some 1) ∧ s.hs 2 = none ∧ s.touch 7 = s := by
+  refine ⟨⟨_, rfl, rfl⟩, by decide, rfl⟩
 
 end Lockable
